@@ -213,10 +213,14 @@ def run(ctx):
             ctx.violation('raises-%s-%s' % (o['stage'], exc), cj, 'stage %s: %s' % (o['stage'], o['exc']), KNOWN_PRED)
         if o.get('mode_leak'):
             ctx.count('mode_leak_seen')
-    # re-measure slow cases (three times) before reporting a hang / super-polynomial time
-    for cj in slow:
-        again = pool.map([dict(cj, opts=tuple(cj.get('opts', (True, True))))] * 2, lambda c: 2 * time_limit(c))
-        if all(a[0] == 'timeout' for a in again):
+    # re-measure slow cases (twice more, double limit, all in one parallel map) before reporting a hang /
+    # super-polynomial time; when there are many, the 48 shortest inputs stand for all
+    ctx.extra['slow_first_pass'] = len(slow)
+    slow.sort(key=lambda c: len(json.dumps(c['input'])))
+    slow = slow[:48]
+    again = pool.map([dict(cj, opts=tuple(cj.get('opts', (True, True)))) for cj in slow for _ in range(2)], lambda c: 2 * time_limit(c))
+    for k, cj in enumerate(slow):
+        if all(a[0] == 'timeout' for a in again[2 * k:2 * k + 2]):
             ctx.violation('time-%s' % cj['family'], cj, 'no result within %.1fs (limit scales with n^2), 3 attempts' % (2 * time_limit(cj)), KNOWN_PRED)
     ctx.extra['input_distribution'] = fam
     # tie of Model/Slice.v + Model/Blocks.v: the implementation's slicing trace on malformed texts
